@@ -8,6 +8,14 @@ CHECKS = [
      "text": "Every filter's __call__ (Iteration, Rank, TimeRange, Name via symbol table / decoded column / s_name column, GPU/CPU side with and without symbol table, MemCopy, Query/ZeroDuration, Composite in several orders) is executed symbolically from /repo's AST over a symbolic event frame; for an arbitrary (skolem) row z3 proves kept <=> documented predicate, contents / labels / order unchanged and the input not written, for all frames and all parameter values. IterationIndexFilter, constructors and whole-frame purity are covered by the bounded stage only.",
      "note": "assumed: pandas contracts of selection / isin / comparisons / query / str.match (uninterpreted, shared by encoded and decoded paths) / dtype tags (listed in evidence.assumptions, differential-tested by the bounded stage); symbol table bijection (C11); regex semantics not interpreted",
      "technique": TECH},
+    {"property_id": "C02", "category": "proof",
+     "text": "transform_correlation_to_index (with the real CPUOperatorFilter / GPUKernelFilter / device-side predicate executed from /repo's AST) is run over a symbolic frame; z3 proves for an arbitrary row: no correlation id => -1, absent counterpart => 0, otherwise the link is the id of the unique opposite-side event with the same correlation id, links are mutual, a positive link never names another id or the same side, only index_correlation is assigned; get_cpu_gpu_correlation = the linked (device, host) pairs.",
+     "note": "assumed: pandas contracts (selection, inner merge, label scatter, np.minimum, listed in evidence); preconditions WF2/WF5/WF6 (unique ids = labels, one event per side per correlation id); JSON decoding and _compress_df covered by the bounded stage only",
+     "technique": TECH},
+    {"property_id": "C04", "category": "proof",
+     "text": "merge_kernel_intervals is proved by prefix-fold induction over its own pandas scans (shift/cummax/cumsum/groupby run aggregation, glue inferred Houdini-style): sorted+separated rows, same covered points, extent; _get_idle_time_for_kernels and the nested idle_time_per_rank are executed against that contract: device rows = stream != -1, computation rows by kernel type, kernel_time = max end - min ts, idle = span - busy, the three asserts never fire, parts >= 0 and sum to kernel_time; percentage tail checked statement by statement.",
+     "note": "assumed: Lean lemmas L1/L2 (sum of lengths of separated intervals = measure of the union; monotone) linking the sums to Lebesgue measure; fold meta-lemma for ghost accumulators; pandas scan contracts (shift/cummax/cumsum/groupby over a non-decreasing key/sort_values); get_kernel_type uninterpreted; floats as reals",
+     "technique": TECH},
 ]
 _PENDING = "check not built yet in this round (planned, see DESIGN.md section 5); not claimed until its obligations are generated and discharged"
 NOT_APPLICABLE = [{"property_id": f"C{i:02d}", "reason": _PENDING} for i in range(1, 21) if f"C{i:02d}" not in {c["property_id"] for c in CHECKS}]
